@@ -3,7 +3,7 @@ the pure-Python constraint evaluators, the filter pipeline of MolQuery.GetQueryM
 translation of the reader, and layout/label independence of the parser.  RDKit's embedding search is assumed."""
 import operator as op
 
-from vf.symkit import PARAM, REPLAY, NoTracing, B, I, S, begin, choose, finish, skip
+from vf.symkit import PARAM, REPLAY, NoTracing, B, C, I, S, begin, choose, finish, skip
 from vf.stubs import rdfakes as rf
 
 import pgradd.RDkitWrapper.MolQuery as MQ
@@ -406,8 +406,8 @@ def h_layout(d: bool):
     k = choose('len', 2) + 1
     chars = []
     for i in range(k):
-        c = S('w%d' % i)
-        if len(c) != 1 or not (c == ' ' or c == '\n' or c == '\t'):
+        c = C('w%d' % i)
+        if not (c == ' ' or c == '\n' or c == '\t'):
             return skip()
         chars.append(c)
     with NoTracing():
@@ -432,8 +432,8 @@ def h_labels(d: bool):
     k = choose('len', 2) + 1
     chars = []
     for i in range(k):
-        c = S('l%d' % i)
-        if len(c) != 1 or not (c.isalpha() or (c.isascii() and c.isdigit()) or c == '_'):
+        c = C('l%d' % i)
+        if not (c.isalpha() or (c.isascii() and c.isdigit()) or c == '_'):
             return skip()
         chars.append(c)
     pre, mid, post = 'fragment a{C labeled ', ' C labeled c2 single bond to ', '}'
